@@ -1,4 +1,5 @@
 import Logrange.Proofs.RdRngFwd
+import Logrange.Proofs.RdRngBwd
 import Logrange.Proofs.RdRngWin
 import Logrange.Proofs.RdRngPaging
 import Logrange.Proofs.RdRngQueryLift
@@ -30,12 +31,15 @@ theorem code_shape_facts_ranged :
     Logrange.Generated.C03.fwdEndPosFromDecisionCount = true ∧
     Logrange.Generated.C03.advanceKeepsIteratorPos = true := by decide
 
-/-- what the model driver prints for `it.spec` on a ranged iterator going forward (`rSpecDrain`, compared with a drain of the
-real `partition.JIterator` on every run) is what the model iterator delivers, whenever its executable well-formedness
-test `rwfB` holds -/
+/-- what the model driver prints for `it.spec` on a ranged iterator (`rSpecDrain`, compared with a drain of the real
+`partition.JIterator` in its current direction on every run) is what the model iterator delivers, whenever its executable
+well-formedness test `rwfB` holds — forward, and backward under `PosIds` / `bw_ChunkBound` -/
 theorem ranged_drain_is_spec (j : Journal) (s : RIt) (n : Nat) (hs : Sorted j) (h : rwfB j s = true)
-    (hb : s.bkwd = false) (hn : (wflat j).length ≤ n) : rDrain j n s = rSpecDrain j s ∧ RWF j s :=
-  ⟨rf_spec_drain_fwd j s n hs h hb hn, rf_rwfB_sound h⟩
+    (hn : (wflat j).length ≤ n) :
+    RWF j s ∧ (s.bkwd = false → rDrain j n s = rSpecDrain j s) ∧
+    (s.bkwd = true → PosIds j → bw_ChunkBound j → rDrain j n s = rSpecDrain j s) :=
+  ⟨rf_rwfB_sound h, fun hb => rf_spec_drain_fwd j s n hs h hb hn,
+   fun hb hp hcb => rb_spec_drain_bwd j s n hs hp hcb h hb hn⟩
 
 /-- `Get` of the ranged iterator returns the admitted record at its index (EOF = none left) and keeps the index -/
 theorem ranged_get_forward (j : Journal) (s : RIt) (hs : Sorted j) (hw : RWF j s) (hb : s.bkwd = false) :
@@ -81,6 +85,41 @@ theorem ranged_iter_enumerates (j : Journal) (p : Pos) (n : Nat) (lo hi : Option
   have := Logrange.Rd.iter_enumerates j (setPos j {} p) n hs hwl g3 hn
   rw [e1, this]; unfold effPos; rw [g1]; simp [g2]
 
+/-! ### backward (hypotheses as for the library iterator: `PosIds` — no chunk id 0 —, `bw_ChunkBound` — ≤ 2^32 records per chunk) -/
+
+/-- backward `Get` returns the admitted record just before the iterator's count (EOF at 0) and keeps the count -/
+theorem ranged_get_backward (j : Journal) (s : RIt) (hs : Sorted j) (hp : PosIds j) (hcb : bw_ChunkBound j)
+    (hw : RWF j s) (hb : s.bkwd = true) :
+    (rGet j s).2 = (if wbCount j s = 0 then none else (wflat j)[wbCount j s - 1]?) ∧
+    wbCount j (rGet j s).1 = wbCount j s ∧ RWF j (rGet j s).1 :=
+  let h := rGetBwd j s hs hp hcb hw hb; ⟨h.1, h.2.2.2.1, h.2.1⟩
+
+/-- backward `Next` steps back over exactly one admitted record -/
+theorem ranged_next_backward (j : Journal) (s : RIt) (hs : Sorted j) (hp : PosIds j) (hcb : bw_ChunkBound j)
+    (hw : RWF j s) (hb : s.bkwd = true) :
+    wbCount j (rNext j s) = wbCount j s - 1 ∧ RWF j (rNext j s) :=
+  let h := rNextBwd j s hs hp hcb hw hb; ⟨h.2.2, h.1⟩
+
+/-- **ranged_iter_enumerates, backward**: from ANY position, switched backward and drained, with the range re-check: exactly
+the stored records at or before that position whose timestamp is in the range, in REVERSED stored order. -/
+theorem ranged_iter_enumerates_backward (j : Journal) (p : Pos) (n : Nat) (lo hi : Option Int) (hs : Sorted j)
+    (hp : PosIds j) (hcb : bw_ChunkBound j) (hw : WinSound j lo hi) (hn : (flat j).length ≤ n) :
+    (rDrain j n (rSetBackward (rSetPos j {} p) true)).filter (inRange lo hi) =
+      (((flat j).take (flatIdx j ⟨p.cid, p.idx + 1⟩)).filter (inRange lo hi)).reverse := by
+  obtain ⟨h1, h2, h3, h4⟩ := rw_setPos_fresh j p
+  have hci : (rSetBackward (rSetPos j {} p) true).ci = none := h1
+  have hwf : RWF j (rSetBackward (rSetPos j {} p) true) := by unfold RWF; rw [hci]; exact Or.inl h4
+  have hcnt : wbCount j (rSetBackward (rSetPos j {} p) true) = wflatIdx j ⟨p.cid, p.idx + 1⟩ := by
+    unfold wbCount; rw [hci]
+    have e1 : (rSetPos j {} p).cid = p.cid := congrArg Pos.cid h2
+    have e2 : (rSetPos j {} p).idx = p.idx := congrArg Pos.idx h2
+    show wflatIdx j ⟨(rSetPos j {} p).cid, (rSetPos j {} p).idx + 1⟩ = _
+    rw [e1, e2]
+  rw [rb_drain_eq j _ n hs hp hcb hwf rfl, hcnt, List.take_of_length_le (by
+      have := rp_wflat_length_le j
+      simp only [List.length_reverse, List.length_take]; omega),
+    List.filter_reverse, rwn_filter_upto hs (hw.toF (f := inRange lo hi) (fun _ h => h))]
+
 /-- **paging with RANGE** (one partition, ± WHERE), for ALL sorted journals, windows sound for the range, limit lists and
 per-page environment choices (the held cursor object continues | a new cursor is built from the position text): the
 concatenated pages are the first Σ limits of the stored events that match (range re-check and WHERE), in stored order.
@@ -105,6 +144,20 @@ theorem paging_query_level_ranged (j : Journal) (w : Bool) (lo hi : Option Int) 
   rw [rq_pages lo hi rGetFwd rNextFwd hs _ l0 true steps hall,
     rwn_filter_wflat (hw.toF (f := passR lo hi w) (fun r h => by
       simp only [passR, Bool.and_eq_true] at h; exact h.2))]
+
+/-! ### appends between pages under RANGE: the contract needed from the index side (C02) — stated, not used yet -/
+
+/-- **window monotonicity under appends** (request to C02's owner): when a partition grows (`Grows j j'`: appends only),
+the window the selector computes for the grown journal still admits everything the old window admitted that is in range,
+never re-opens below the old lower end of a chunk that was already partly read, and every in-range record of `j'` is
+admitted (`WinSound j'`). With this, a settled position keeps its admitted-index (`wflatIdx j' p = wflatIdx j p` restricted to
+in-range records) and `appends_between_pages` carries over to RANGE as `position_survives_appends` did for the library
+iterator. Formally, per chunk id: the in-range records of the old chunk value sit at the same indices, inside both windows. -/
+def WinMonotone (j j' : Journal) (lo hi : Option Int) : Prop :=
+  Grows j j' ∧ WinSound j lo hi ∧ WinSound j' lo hi ∧
+  ∀ c ∈ j, ∀ c' ∈ j', c.id = c'.id →
+    (∀ (k : Nat) (r : Rec), c.recs[k]? = some r → inRange lo hi r = true → c'.minPos ≤ k ∧ k ≤ c'.maxPos) ∧
+    (∀ (k : Nat) (r : Rec), c'.recs[k]? = some r → c'.minPos ≤ k → k < c.minPos → k < c.cnt → inRange lo hi r = false)
 
 /-! ### non-vacuity and the boundary of `RWF`, evaluated by the kernel -/
 
